@@ -543,7 +543,9 @@ func lemmaShouldRespondDelta(con *Connection, request *discovery.DeltaDiscoveryR
 		verif.Assert("stale-nonce-keeps-record", dHas(proxy, url) && proxy.WatchedResources[url] == prev &&
 			prev.NonceAcked == verif.At(snap, func() string { return prev.NonceAcked }) &&
 			verif.Same(prev.ResourceNames, prevNames) &&
-			verif.Forall(func(x string) bool { return hasName(prev.ResourceNames, x) == verif.At(snap, func() bool { return hasName(prevNames, x) }) }))
+			verif.Forall(func(x string) bool {
+				return hasName(prev.ResourceNames, x) == verif.At(snap, func() bool { return hasName(prevNames, x) })
+			}))
 		return
 	}
 	// an ACK (nonce matches) or a spontaneous subscription change (no nonce)
